@@ -307,12 +307,45 @@ impl<'a, F: Function> RenderWorker<'a, F> for Worker<'a, F> {
         tile: Tile<2>,
     ) -> Self::Output {
         self.image = Image::new((self.tile_sizes[0] as u32).into());
+        #[cfg(fidget_verif)]
+        fidget_core::verif::emit(
+            "pix_root",
+            &[("x", tile.corner.x as i64), ("y", tile.corner.y as i64)],
+        );
         self.render_tile_recurse(shape, 0, tile);
         std::mem::take(&mut self.image)
     }
 }
 
 impl<F: Function> Worker<'_, F> {
+    /// Verification hook: the decision taken for one tile
+    ///
+    /// `act` is 1 (filled inside), 2 (filled outside), 3 (recurse) or
+    /// 4 (per-pixel evaluation)
+    #[cfg(fidget_verif)]
+    fn verif_tile(
+        depth: usize,
+        tile: Tile<2>,
+        tile_size: usize,
+        act: i64,
+        i: Interval,
+        traced: bool,
+    ) {
+        fidget_core::verif::emit(
+            "pix_tile",
+            &[
+                ("d", depth as i64),
+                ("x", tile.corner[0] as i64),
+                ("y", tile.corner[1] as i64),
+                ("s", tile_size as i64),
+                ("act", act),
+                ("lo", i.lower().to_bits() as i32 as i64),
+                ("hi", i.upper().to_bits() as i32 as i64),
+                ("tr", traced as i64),
+            ],
+        );
+    }
+
     fn render_tile_recurse(
         &mut self,
         shape: &mut RenderHandle<F>,
@@ -357,6 +390,15 @@ impl<F: Function> Worker<'_, F> {
                 None
             };
             if let Some(pixel) = pixel {
+                #[cfg(fidget_verif)]
+                Self::verif_tile(
+                    depth,
+                    tile,
+                    tile_size,
+                    if i.upper() < 0.0 { 1 } else { 2 },
+                    i,
+                    simplify.is_some(),
+                );
                 let fill = pixel.into();
                 for y in 0..tile_size {
                     let start = self
@@ -368,6 +410,19 @@ impl<F: Function> Worker<'_, F> {
             }
         }
 
+        #[cfg(fidget_verif)]
+        Self::verif_tile(
+            depth,
+            tile,
+            tile_size,
+            if self.tile_sizes.get(depth + 1).is_some() {
+                3
+            } else {
+                4
+            },
+            i,
+            simplify.is_some(),
+        );
         let sub_tape = if let Some(trace) = simplify.as_ref() {
             shape.simplify(
                 trace,
